@@ -364,17 +364,18 @@ static inline int is_chunked_ctl_char(const unsigned char c) {
  * @returns 1 if it looks valid, 0 if it looks invalid
  */
 static inline int data_probe_chunk_length(htp_connp_t *connp) {
-    if (connp->out_current_read_offset - connp->out_current_consume_offset < 8) {
+    // The line may have begun in earlier data chunks; that part of it is in the buffer.
+    size_t buffered = (connp->out_buf != NULL) ? connp->out_buf_size : 0;
+    size_t len = connp->out_current_read_offset - connp->out_current_consume_offset;
+
+    if (buffered + len < 8) {
         // not enough data so far, consider valid still
         return 1;
     }
 
-    unsigned char *data = connp->out_current_data + connp->out_current_consume_offset;
-    size_t len = connp->out_current_read_offset - connp->out_current_consume_offset;
-
-    size_t i = 0;
-    while (i < len) {
-        unsigned char c = data[i];
+    for (size_t i = 0; i < buffered + len; i++) {
+        unsigned char c = (i < buffered) ? connp->out_buf[i] :
+                connp->out_current_data[connp->out_current_consume_offset + (i - buffered)];
 
         if (is_chunked_ctl_char(c)) {
             // ctl char, still good.
@@ -385,7 +386,6 @@ static inline int data_probe_chunk_length(htp_connp_t *connp) {
             // leading junk, bad
             return 0;
         }
-        i++;
     }
     return 1;
 }
@@ -411,7 +411,7 @@ htp_status_t htp_connp_RES_BODY_CHUNKED_LENGTH(htp_connp_t *connp) {
         if ((connp->out_next_byte != LF) && (!probe_ok) && (!is_chunked_ctl_char((unsigned char) connp->out_next_byte))) {
             if (!data_probe_chunk_length(connp)) {
                 not_chunked = 1;
-            } else if (connp->out_current_read_offset - connp->out_current_consume_offset >= 8) {
+            } else if (((connp->out_buf != NULL) ? connp->out_buf_size : 0) + connp->out_current_read_offset - connp->out_current_consume_offset >= 8) {
                 probe_ok = 1;
             }
         }
